@@ -1315,6 +1315,11 @@ fn family_review(g: &mut G, rng: &mut Rng, thorough: bool) {
             ("rs28-k255-p255", 5, 255, 16, 255, None, 255 * 16, vec![16]),
             ("rs28-symbol-lengths", 5, 10, 16, 4, None, 160, vec![16, 0, 8, 17, 15, 32]),
             ("rs28us-k65535", 129, 65535, 16, 65535, None, 65535 * 16, vec![16]),
+            // Reed-Solomon GF(2^m): the finite-field parameter at and around the width of the payload id
+            ("rs2m-m32", 2, 10, 16, 4, Some((0, 32, 1, 0)), 160, vec![16, 16]),
+            ("rs2m-m31", 2, 10, 16, 4, Some((0, 31, 1, 0)), 160, vec![16, 16]),
+            ("rs2m-m33", 2, 10, 16, 4, Some((0, 33, 1, 0)), 160, vec![16, 16]),
+            ("rs2m-m255", 2, 10, 16, 4, Some((0, 255, 255, 0)), 160, vec![16, 16]),
         ];
         for (name, fec, b, e, par, ss, tlen, pls) in cases {
             let oti = match hk::make_oti(fec, 0, b, e, par, ss, true) {
@@ -1350,6 +1355,31 @@ fn family_review(g: &mut G, rng: &mut Rng, thorough: bool) {
                 if !ds.is_empty() {
                     g.ctx.step(g.eng, &format!("recv iso {} {}", T0, ds.join(",")));
                 }
+                g.ctx.end_case(g.eng);
+            }
+        }
+    }
+
+    // ---- C04: header extensions of length 0 / beyond the header in front of EXT_FTI (the extension walk
+    //      must end: a parser that does not advance hangs the receiver in `push_data`)
+    {
+        let d = mk_pkt(800, None, 16, 8, true, 160, 0, 0, vec![1; 16], false, None);
+        if let Ok(l) = hk::parse_lct_header(&d) {
+            let off = l.header_ext_offset as usize;
+            for (k, word) in [[10u8, 0, 0, 0], [2, 0, 0, 0], [1, 0, 0, 0], [10, 255, 0, 0], [127, 1, 0, 0], [200, 0, 0, 0]].iter().enumerate() {
+                if off > d.len() || d[2] == 255 {
+                    break;
+                }
+                let mut x = d[..off].to_vec();
+                x.extend_from_slice(word);
+                x.extend_from_slice(&d[off..]);
+                x[2] += 1;
+                g.cfg2(&format!("lct-ext-hostile-{}", k), 2, false, true, 1 << 16, true, true, 0, false, 0);
+                g.ctx.nontrivial(&format!("lct-ext-hostile {}", k));
+                g.ctx.count("malformed:lct-ext");
+                g.fz(&x, T0);
+                g.fz(&d, T0 + 1);
+                g.ctx.step(g.eng, &format!("recv fzc {}", T0 + SEC));
                 g.ctx.end_case(g.eng);
             }
         }
